@@ -297,6 +297,10 @@ func main() {
 		fmt.Fprintln(os.Stderr, "worker: no families for", *fProp, buildKind)
 		os.Exit(2)
 	}
+	var progF *os.File
+	if *fProgress != "" {
+		progF, _ = os.OpenFile(*fProgress, os.O_CREATE|os.O_WRONLY, 0644)
+	}
 	k := *fFrom
 	for i := uint64(0); i < *fN; i++ {
 		if *fDeadline > 0 && time.Since(start).Seconds() > *fDeadline {
@@ -309,8 +313,10 @@ func main() {
 		} else {
 			c = simkit.NewChoice(simkit.Mix(*fSeed, fam.ID, k))
 		}
-		if *fProgress != "" && i%16 == 0 {
-			os.WriteFile(*fProgress, []byte(fmt.Sprintf("%s %d\n", fam.Name, k)), 0644)
+		if progF != nil {
+			// fixed-size record rewritten in place before every run: tells the driver
+			// which run a dying worker was executing
+			progF.WriteAt([]byte(fmt.Sprintf("%-40s %20d\n", fam.Name, k)), 0)
 		}
 		t0 := time.Now()
 		oneRun(res, sigs, fam, c, k, len(res.Violations) < *fMaxViol)
